@@ -21,25 +21,47 @@ def load_known():
     return json.load(open(p))
 
 
+def seeds_of(tier, seed):
+    """thorough explores two corpora: the sampled families, the random declarations (RND, random must-fail pairs)
+    and the const-witness values differ per seed"""
+    return [seed, seed + 1] if tier == "thorough" else [seed]
+
+
 def run_property(pid, tier, seed, ctx_cache={}):
     t0 = time.time()
-    out_dir = buildmod.build(tier, seed)
-    key = (out_dir,)
-    if key not in ctx_cache:
-        facts = judge.Facts(out_dir)
-        ctx_cache[key] = (facts, {})
-    facts, done = ctx_cache[key]
     meta = propmeta.PROPS[pid]
-    ctx = judge.Ctx(facts)
     infra = []
-    for r in facts.runs:
-        if r["rc"] not in (0, 101):
-            infra.append("cargo exited with %s in run %s" % (r["rc"], r["label"]))
-    judge.analyse_positive(ctx, {pid})
-    negjudge.analyse_negative(ctx, {pid})
-    if pid == "C18":
-        negjudge.analyse_generator(ctx)
-    obs = [o for o in ctx.obs if pid in o.props]
+    obs = []
+    shapes = set()
+    programs = set()
+    seen_keys = set()
+    per_seed = []
+    for sd in seeds_of(tier, seed):
+        out_dir = buildmod.build(tier, sd)
+        key = (out_dir,)
+        if key not in ctx_cache:
+            ctx_cache.clear()  # (one corpus in memory at a time)
+            ctx_cache[key] = (judge.Facts(out_dir), {})
+        facts, done = ctx_cache[key]
+        ctx = judge.Ctx(facts)
+        for r in facts.runs:
+            if r["rc"] not in (0, 101):
+                infra.append("cargo exited with %s in run %s (seed %d)" % (r["rc"], r["label"], sd))
+        judge.analyse_positive(ctx, {pid})
+        negjudge.analyse_negative(ctx, {pid})
+        if pid == "C18":
+            negjudge.analyse_generator(ctx)
+        mine = [o for o in ctx.obs if pid in o.props]
+        per_seed.append(len(mine))
+        for o in mine:
+            # the fixed families give the same obligation for every seed: count it once (a differing verdict is kept)
+            k = (o.key, o.ok)
+            if k in seen_keys:
+                continue
+            seen_keys.add(k)
+            obs.append(o)
+        shapes |= ctx.shapes.get(pid, set())
+        programs |= ctx.programs.get(pid, set())
     known = load_known()
     known_keys = {k["key"]: k for k in known.get("known", []) if k["property"] == pid}
     viol = [o for o in obs if o.ok is False]
@@ -57,7 +79,7 @@ def run_property(pid, tier, seed, ctx_cache={}):
             for o in obs:
                 f.write("%s\t%s\t%s\n" % (pid, o.key, o.ok))
     floor = meta["floor"][tier]
-    floor_ok = len(obs) >= floor
+    floor_ok = min(per_seed) >= floor  # (the floor is per corpus)
     # evidence
     samples = [o.sample for o in good if o.sample]
     # spread the samples over the corpus instead of taking the first few
@@ -74,8 +96,6 @@ def run_property(pid, tier, seed, ctx_cache={}):
     for smp in samples:
         if isinstance(smp, dict) and smp.get("decl") in by_path and "declaration" not in smp:
             smp["declaration"] = judge.decl_text(by_path[smp["decl"]])[:600]
-    shapes = ctx.shapes.get(pid, set())
-    programs = ctx.programs.get(pid, set())
     ev = {
         "property_id": pid,
         "tier": tier,
@@ -83,6 +103,8 @@ def run_property(pid, tier, seed, ctx_cache={}):
         "level": meta["level"],
         "coverage": {
             "obligations": len(obs),
+            "corpus_seeds": seeds_of(tier, seed),
+            "obligations_per_seed": per_seed,
             "discharged": len(good),
             "undecided": len(und),
             "violations": len(viol),
@@ -133,7 +155,7 @@ def run_property(pid, tier, seed, ctx_cache={}):
         for o in und[:8]:
             print("UNDECIDED: %s :: %s" % (o.key, o.detail[:300]))
         if not floor_ok:
-            print("UNDECIDED: only %d obligations, floor is %d" % (len(obs), floor))
+            print("UNDECIDED: only %d obligations, floor is %d" % (min(per_seed), floor))
         rc = 2
     print("%s %s: obligations=%d discharged=%d undecided=%d violations=%d known=%d shapes=%d wall=%.1fs" % (
         pid, tier, len(obs), len(good), len(und), len(new_viol), len(reported_known), len(shapes), time.time() - t0))
